@@ -116,3 +116,62 @@ pub fn fresh_case_dir(sb: &Sandbox, counter: &mut u64) -> PathBuf {
     std::fs::create_dir_all(&d).expect("case dir");
     d
 }
+
+/// File names that are not valid UTF-8 (a Latin-1 name, bytes that can start nothing, a lone continuation byte).
+pub const RAW_NAMES: [&[u8]; 3] = [b"caf\xe9", b"\xff\xfe", b"x\x80y"];
+
+/// Give up to two nodes of a generated input names that are not valid UTF-8.  Only nodes that are neither a starting
+/// point nor above one are renamed (starting points are spelled on the command line, which the in-process runner
+/// takes as strings).  Returns whether any node was renamed.
+pub fn add_raw_names(v: &mut Value, rng: &mut Rng) -> bool {
+    let n = arr(&v["tree"]).len();
+    let parent = |v: &Value, i: usize| v["tree"][i - 1]["parent"].as_u64().unwrap_or(0) as usize;
+    let mut above_root = vec![false; n + 1];
+    for r in arr(&v["roots"]) {
+        let mut k = r["node"].as_u64().unwrap_or(0) as usize;
+        while k != 0 && k <= n {
+            above_root[k] = true;
+            k = parent(v, k);
+        }
+    }
+    let mut any = false;
+    for _ in 0..2 {
+        let i = 1 + rng.below(n);
+        if above_root[i] {
+            continue;
+        }
+        let name = RAW_NAMES[rng.below(RAW_NAMES.len())];
+        let par = parent(v, i);
+        let clash = (1..=n).any(|j| j != i && parent(v, j) == par && json_to_bytes(&v["tree"][j - 1]["name"]) == name);
+        if clash {
+            continue;
+        }
+        v["tree"][i - 1]["name"] = bytes_to_json(name);
+        any = true;
+    }
+    any
+}
+
+/// find prints a path that is not valid UTF-8 with U+FFFD in place of the offending bytes (not this property's
+/// subject).  Translate such a printed path back, component by component, through the names of the tree whose
+/// printed form it is; components that are nobody's printed form stay as they are.
+pub fn unlossy(printed: &[u8], tree: &[Node]) -> Vec<u8> {
+    if !printed.windows(3).any(|w| w == "\u{fffd}".as_bytes()) {
+        return printed.to_vec();
+    }
+    let mut out: Vec<u8> = vec![];
+    for (k, comp) in printed.split(|b| *b == b'/').enumerate() {
+        if k > 0 {
+            out.push(b'/');
+        }
+        let cands: Vec<&Node> = tree.iter().filter(|n| std::str::from_utf8(&n.name).is_err() && String::from_utf8_lossy(&n.name).as_bytes() == comp).collect();
+        let mut names: Vec<&Vec<u8>> = cands.iter().map(|n| &n.name).collect();
+        names.dedup();
+        if names.len() == 1 {
+            out.extend(names[0].iter());
+        } else {
+            out.extend(comp);
+        }
+    }
+    out
+}
